@@ -1511,21 +1511,29 @@ func c13FrameClass(fr *c13Frame, base func(fn *ssa.Function, sets []map[ssa.Valu
 				}
 			}
 		}
-		cf := c13NewCondFacts(kf.Fn, c13FrameClass(kf, base, setsOf, kelem, depth-1))
-		ht, hf := true, true
-		for _, a := range RetAtoms(kf.Fn, 0) {
-			for _, truth := range []bool{true, false} {
-				if cf.Implies(a.Val, truth, 0) || !c13AtomReach(kf.Fn.Blocks[0], 0, a, newCut().Edges(cf.list()...)) {
-					continue
-				}
-				if truth {
-					ht = false
-				} else {
-					hf = false
-				}
-			}
-		}
+		ht, hf := c13PredicateImplies(kf, base, setsOf, kelem, depth-1)
 		return t || ht, f || hf
 	}
 	return class
+}
+
+// c13PredicateImplies: for the predicate activation kf (element values kelem):
+// does its returning true (ht) / false (hf) imply the fact — every return that
+// may have that truth value implies it by value or lies behind the fact's edges.
+func c13PredicateImplies(kf *c13Frame, base func(fn *ssa.Function, sets []map[ssa.Value]bool) c13CondClass, setsOf func(fr *c13Frame, elem map[ssa.Value]bool) []map[ssa.Value]bool, kelem map[ssa.Value]bool, depth int) (ht, hf bool) {
+	cf := c13NewCondFacts(kf.Fn, c13FrameClass(kf, base, setsOf, kelem, depth))
+	ht, hf = true, true
+	for _, a := range RetAtoms(kf.Fn, 0) {
+		for _, truth := range []bool{true, false} {
+			if cf.Implies(a.Val, truth, 0) || !c13AtomReach(kf.Fn.Blocks[0], 0, a, newCut().Edges(cf.list()...)) {
+				continue
+			}
+			if truth {
+				ht = false
+			} else {
+				hf = false
+			}
+		}
+	}
+	return ht, hf
 }
